@@ -23,6 +23,8 @@ type Interp struct {
 	hpkg    string  // package path of the harness being run (scopes //gosmt:stub)
 	initDepth int
 	ndecode int
+	rs      *raceState
+	mapOrderForks int
 	quiet   int
 	builders map[*value]*builderState
 	events  []value // zzsym.Emit trace (interpreter values of type zzsym.Event)
@@ -246,6 +248,7 @@ func (i *Interp) visitInstr(fr *frame, instr ssa.Instruction) continuation {
 		if p == nil {
 			panic(targetPanic{v: iface{t: types.Typ[types.String], v: TStr("runtime error: nil pointer dereference (store)")}})
 		}
+		i.raceAccess(fr, p, true, "a memory cell", instr.Pos())
 		*p = copyVal(fr.get(instr.Val))
 	case *ssa.If:
 		succ := 1
@@ -336,12 +339,16 @@ func (i *Interp) visitInstr(fr *frame, instr ssa.Instruction) continuation {
 			fault("Index on %T", x)
 		}
 	case *ssa.Lookup:
+		if m, ok := fr.get(instr.X).(*mapV); ok && m != nil {
+			i.raceAccess(fr, m, false, "a map", instr.Pos())
+		}
 		fr.env[instr] = i.lookup(instr, fr.get(instr.X), fr.get(instr.Index))
 	case *ssa.MapUpdate:
 		m := fr.get(instr.Map).(*mapV)
 		if m == nil {
 			panic(targetPanic{v: iface{t: types.Typ[types.String], v: TStr("assignment to entry in nil map")}})
 		}
+		i.raceAccess(fr, m, true, "a map", instr.Pos())
 		i.mapSet(m, fr.get(instr.Key), copyVal(fr.get(instr.Value)))
 	case *ssa.TypeAssert:
 		fr.env[instr] = i.typeAssert(instr, fr.get(instr.X).(iface))
@@ -503,7 +510,6 @@ var skipInit = map[string]bool{
 	modulePath + "/internal/flags":     true, // pflag registration and parsing of os.Args
 	modulePath + "/internal/templater": true, // template function table (templater is stubbed)
 	modulePath + "/taskfile":           true, // chroma style registration
-	"os":                               true,
 	"runtime":                          true,
 	"syscall":                          true,
 	"time":                             true,
